@@ -34,6 +34,22 @@ type Case struct {
 	Args    int          `json:"args,omitempty"`    // spelling of the CLI options (cliArgs)
 	Reverse bool         `json:"reverse,omitempty"` // the model is handed over in reverse order
 	Prior   *Request     `json:"prior,omitempty"`   // a request carried out before, in the same process, on another copy of the project
+	More    []Request    `json:"more,omitempty"`    // further requests of the same config, for other methods
+	MainAt  int          `json:"mainAt,omitempty"`  // how many of them stand before the request Class.Old -> New in the config
+	Sep     int          `json:"sep,omitempty"`     // 1: a blank line between the requests of the config
+}
+
+// requests lists the requests of the config in the order of its lines, and the index of the main one.
+func (c Case) requests() ([]Request, int) {
+	at := c.MainAt
+	if at < 0 || at > len(c.More) {
+		at = 0
+	}
+	var out []Request
+	out = append(out, c.More[:at]...)
+	out = append(out, Request{Class: c.Class, Old: c.Old, New: c.New})
+	out = append(out, c.More[at:]...)
+	return out, at
 }
 
 // Request is a rename request.
@@ -100,8 +116,9 @@ func gen(t *rapid.T) Case {
 	// has no method to rename), of a unit written by hand (c05_shapes_test.go)
 	synth := rapid.IntRange(0, 3).Draw(t, "synth") == 3 || len(cands) == 0
 	var cd cand
+	var synthOthers []string
 	if synth {
-		cd.class, cd.name = genSynth(t, &p)
+		cd.class, cd.name, synthOthers = genSynth(t, &p)
 		c.Project = p
 	} else {
 		pick := cands
@@ -116,46 +133,6 @@ func gen(t *rapid.T) Case {
 		cd = pick[rapid.IntRange(0, len(pick)-1).Draw(t, "subject")]
 	}
 	c.Class, c.Old = cd.class, cd.name
-	// a new name of any length 1..40 (in characters): letters, then 0..3 of its characters replaced by
-	// other identifier characters (`_`, `$`, a digit, letters outside ASCII)
-	var nn string
-	switch rapid.IntRange(0, 3).Draw(t, "newLen") {
-	case 0:
-		nn = rapid.StringMatching(`[a-z]`).Draw(t, "new1")
-	case 1:
-		if n := utf8.RuneCountInString(cd.name); n <= 40 {
-			nn = rapid.StringMatching(`[a-z][a-zA-Z]{`+fmt.Sprint(n-1)+`}`).Draw(t, "newSameLen")
-		} else {
-			// as long as a very long old name: a short chunk repeated
-			chunk := rapid.StringMatching(`[a-zA-Z]{1,6}`).Draw(t, "newSameLenChunk")
-			nn = "n" + strings.Repeat(chunk, n/len(chunk)+1)[:n-1]
-		}
-	case 2:
-		nn = rapid.StringMatching(`[a-z][a-zA-Z]{20,39}`).Draw(t, "newLong")
-	default:
-		nn = rapid.StringMatching(`[a-z][a-zA-Z]{0,12}`).Draw(t, "newAny")
-	}
-	// sometimes a name that resembles the old one (an extension, a prefix, a suffix, a case variant) or a
-	// contextual keyword (open, with, to, record, ...)
-	special := rapid.IntRange(0, 7).Draw(t, "newSpecial")
-	switch special {
-	case 6:
-		nn = newNameLike(t, cd.name)
-	case 7:
-		nn = rapid.SampledFrom(contextualWords).Draw(t, "newWord")
-	}
-	if k := rapid.IntRange(0, 5).Draw(t, "newExotic") - 2; k > 0 && special < 6 {
-		rs := []rune(nn)
-		for ; k > 0; k-- {
-			at := rapid.IntRange(0, len(rs)-1).Draw(t, "newExoticAt")
-			r := rapid.SampledFrom(exoticRunes).Draw(t, "newExoticRune")
-			if at == 0 && unicode.IsDigit(r) {
-				r = '$'
-			}
-			rs[at] = r
-		}
-		nn = string(rs)
-	}
 	// fresh in the project, and no keyword (`_` alone is one)
 	taken := map[string]bool{"_": true}
 	for _, f := range p.Files {
@@ -163,13 +140,10 @@ func gen(t *rapid.T) Case {
 			taken[id] = true
 		}
 	}
-	for taken[nn] || isKeyword(nn) {
-		nn += "Q"
-	}
-	c.New = nn
-	taken[nn] = true
+	c.New = genNewName(t, cd.name, taken)
 	// sometimes clone a calling unit under a class name of the same length: two files then hold
 	// sites at identical (line, column) coordinates
+	clonedClass := ""
 	if !synth && rapid.IntRange(0, 3).Draw(t, "cloneCaller") == 0 {
 		target := c.Class + "." + c.Old
 		for i, u := range p.Units {
@@ -211,12 +185,94 @@ func gen(t *rapid.T) Case {
 			}
 			c.Project.Files = append(append([]jgen.File(nil), c.Project.Files...), jgen.File{Path: nu.Path, Text: replaceIdent(p.Files[i].Text, u.Name, twin)})
 			c.Project.Units = append(append([]jgen.UnitTruth(nil), c.Project.Units...), nu)
+			clonedClass = u.FullName()
 			break
 		}
 	}
 	// sometimes a class whose name resembles the subject's class
+	look := ""
 	if rapid.IntRange(0, 4).Draw(t, "lookalike") == 4 {
-		addLookalike(t, &c)
+		look = addLookalike(t, &c)
+	}
+	// one case in two: the config holds one or two further requests, for other methods: of the subject's
+	// class or of another class of the project (preferring methods with a site on a line that also
+	// holds a site of the subject), a method named like the subject's in a class named like its class,
+	// a method of the hand-written unit, or (rarely) a method the project does not declare
+	if k := rapid.IntRange(0, 3).Draw(t, "furtherRequests") - 1; k > 0 {
+		type sub struct{ class, name string }
+		var pool []sub
+		for _, o := range cands {
+			// (the truth of a cloned unit still names the original class)
+			if (o.class != c.Class || o.name != c.Old) && o.class != clonedClass {
+				pool = append(pool, sub{o.class, o.name})
+			}
+		}
+		for _, n := range synthOthers {
+			pool = append(pool, sub{c.Class, n})
+		}
+		if look != "" {
+			pool = append(pool, sub{look, c.Old})
+		}
+		lineSet := func(class, name string) map[string]bool {
+			out := map[string]bool{}
+			for _, u := range c.Project.Units {
+				for _, f := range u.Funcs {
+					if fullName(u) == class && f.Name == name && !f.IsCtor {
+						out[fmt.Sprint(u.Path, ":", f.NameLine)] = true
+					}
+					for _, e := range f.Events {
+						if e.Target == class+"."+name {
+							out[fmt.Sprint(u.Path, ":", e.Line)] = true
+						}
+					}
+				}
+			}
+			return out
+		}
+		taken2 := identifiersOf(&c.Project)
+		taken2[c.New] = true
+		held := lineSet(c.Class, c.Old)
+		for i := 0; i < k; i++ {
+			var r Request
+			if len(pool) == 0 || rapid.IntRange(0, 9).Draw(t, "absentSubject") == 9 {
+				r.Class, r.Old = c.Class, fmt.Sprintf("zgone%d", i+1)
+				if rapid.Bool().Draw(t, "absentClass") {
+					r.Class = "zz.absent.Zgone"
+				}
+				for taken2[r.Old] {
+					r.Old += "q"
+				}
+				taken2[r.Old] = true
+			} else {
+				var near []int
+				for j, o := range pool {
+					for l := range lineSet(o.class, o.name) {
+						if held[l] {
+							near = append(near, j)
+							break
+						}
+					}
+				}
+				j := 0
+				if len(near) > 0 && rapid.IntRange(0, 3).Draw(t, "preferSharedLine") > 0 {
+					j = near[rapid.IntRange(0, len(near)-1).Draw(t, "furtherSubjectNear")]
+				} else {
+					j = rapid.IntRange(0, len(pool)-1).Draw(t, "furtherSubject")
+				}
+				r.Class, r.Old = pool[j].class, pool[j].name
+				pool = append(append([]sub(nil), pool[:j]...), pool[j+1:]...)
+				for l := range lineSet(r.Class, r.Old) {
+					held[l] = true
+				}
+			}
+			r.New = genNewName(t, r.Old, taken2)
+			taken[r.New] = true
+			c.More = append(c.More, r)
+		}
+		c.MainAt = rapid.IntRange(0, len(c.More)).Draw(t, "mainAt")
+		if rapid.IntRange(0, 3).Draw(t, "blankBetween") == 3 {
+			c.Sep = 1
+		}
 	}
 	// the request in the config file: with or without final newline, among blank lines
 	if rapid.IntRange(0, 2).Draw(t, "confForm") == 2 {
@@ -240,6 +296,55 @@ func gen(t *rapid.T) Case {
 		c.Prior = &pr
 	}
 	return c
+}
+
+// genNewName draws the new name of a request for the method old: fresh among taken (and entered there).
+func genNewName(t *rapid.T, old string, taken map[string]bool) string {
+	// a new name of any length 1..40 (in characters): letters, then 0..3 of its characters replaced by
+	// other identifier characters (`_`, `$`, a digit, letters outside ASCII)
+	var nn string
+	switch rapid.IntRange(0, 3).Draw(t, "newLen") {
+	case 0:
+		nn = rapid.StringMatching(`[a-z]`).Draw(t, "new1")
+	case 1:
+		if n := utf8.RuneCountInString(old); n <= 40 {
+			nn = rapid.StringMatching(`[a-z][a-zA-Z]{`+fmt.Sprint(n-1)+`}`).Draw(t, "newSameLen")
+		} else {
+			// as long as a very long old name: a short chunk repeated
+			chunk := rapid.StringMatching(`[a-zA-Z]{1,6}`).Draw(t, "newSameLenChunk")
+			nn = "n" + strings.Repeat(chunk, n/len(chunk)+1)[:n-1]
+		}
+	case 2:
+		nn = rapid.StringMatching(`[a-z][a-zA-Z]{20,39}`).Draw(t, "newLong")
+	default:
+		nn = rapid.StringMatching(`[a-z][a-zA-Z]{0,12}`).Draw(t, "newAny")
+	}
+	// sometimes a name that resembles the old one (an extension, a prefix, a suffix, a case variant) or a
+	// contextual keyword (open, with, to, record, ...)
+	special := rapid.IntRange(0, 7).Draw(t, "newSpecial")
+	switch special {
+	case 6:
+		nn = newNameLike(t, old)
+	case 7:
+		nn = rapid.SampledFrom(contextualWords).Draw(t, "newWord")
+	}
+	if k := rapid.IntRange(0, 5).Draw(t, "newExotic") - 2; k > 0 && special < 6 {
+		rs := []rune(nn)
+		for ; k > 0; k-- {
+			at := rapid.IntRange(0, len(rs)-1).Draw(t, "newExoticAt")
+			r := rapid.SampledFrom(exoticRunes).Draw(t, "newExoticRune")
+			if at == 0 && unicode.IsDigit(r) {
+				r = '$'
+			}
+			rs[at] = r
+		}
+		nn = string(rs)
+	}
+	for taken[nn] || isKeyword(nn) {
+		nn += "Q"
+	}
+	taken[nn] = true
+	return nn
 }
 
 // exoticRunes are identifier characters other than ASCII letters.
@@ -343,13 +448,29 @@ func check(c Case) pbt.Verdict {
 		return pbt.Fail("analysis panicked: %s", p)
 	}
 	pkg, cls := splitClass(c.Class)
-	// the edits the statement allows: the declaration identifier and every call the model attributes to the method
+	// the requests of the config, in the order of its lines
+	type subject struct {
+		pkg, cls, old, new, target string
+		delta                      int // columns count characters
+	}
+	reqs, mainAt := c.requests()
+	var subs []subject
+	for _, r := range reqs {
+		rp, rc := splitClass(r.Class)
+		subs = append(subs, subject{rp, rc, r.Old, r.New, r.Class + "." + r.Old, utf8.RuneCountInString(r.New) - utf8.RuneCountInString(r.Old)})
+	}
+	// the edits the statement allows: for every request, the declaration identifier and every call the model attributes to the method
 	var edits []edit
 	seen := map[edit]bool{}
-	add := func(e edit) {
+	owner := map[edit]int{} // the request an edit belongs to
+	contested := false
+	add := func(e edit, ri int) {
 		if !seen[e] {
 			seen[e] = true
+			owner[e] = ri
 			edits = append(edits, e)
+		} else if owner[e] != ri {
+			contested = true
 		}
 	}
 	rel := func(abs string) string {
@@ -359,24 +480,39 @@ func check(c Case) pbt.Verdict {
 	namelessSite, methodRefSite := false, false
 	for _, ds := range before {
 		for _, f := range ds.Functions {
-			if ds.Package == pkg && ds.NodeName == cls && f.Name == c.Old {
-				add(edit{rel(ds.FilePath), f.Position.StartLine, f.Position.StartLinePosition})
-			}
-			for _, call := range f.FunctionCalls {
-				if call.Package == pkg && call.NodeName == cls && call.FunctionName == c.Old {
-					add(edit{rel(ds.FilePath), call.Position.StartLine, call.Position.StartLinePosition})
-					if f.Name == "" {
-						namelessSite = true // a call outside every method (field initializer, initializer block)
-					}
-					if call.Type == "lambda" {
-						methodRefSite = true
+			for ri, r := range subs {
+				if ds.Package == r.pkg && ds.NodeName == r.cls && f.Name == r.old {
+					add(edit{rel(ds.FilePath), f.Position.StartLine, f.Position.StartLinePosition}, ri)
+				}
+				for _, call := range f.FunctionCalls {
+					if call.Package == r.pkg && call.NodeName == r.cls && call.FunctionName == r.old {
+						add(edit{rel(ds.FilePath), call.Position.StartLine, call.Position.StartLinePosition}, ri)
+						if f.Name == "" {
+							namelessSite = true // a call outside every method (field initializer, initializer block)
+						}
+						if call.Type == "lambda" {
+							methodRefSite = true
+						}
 					}
 				}
 			}
 		}
 	}
+	if contested {
+		// one token claimed by two requests: the statement does not say which name it gets
+		pbt.Count("token_claimed_by_two_requests", 1)
+		return pbt.Verdict{Skip: true}
+	}
 	// ground truth: the declaration and every generated call site meant for the method must be among them
 	target := c.Class + "." + c.Old
+	renames := "renaming " + target + " -> " + c.New
+	if len(reqs) > 1 {
+		var parts []string
+		for _, r := range subs {
+			parts = append(parts, r.target+" -> "+r.new)
+		}
+		renames = "renaming " + strings.Join(parts, ", ") + " (one config)"
+	}
 	sites, sameLine, mbLeft := 0, false, false
 	wildcardSite, wildcardUnit, superSite := false, false, false
 	for i, u := range c.Project.Units {
@@ -392,22 +528,24 @@ func check(c Case) pbt.Verdict {
 		lines := strings.Split(c.Project.Files[i].Text, "\n")
 		perLine := map[int]int{}
 		for _, f := range u.Funcs {
-			if fullName(u) == c.Class && f.Name == c.Old {
-				if !seen[edit{u.Path, f.NameLine, f.NameCol}] {
-					return pbt.Fail("the model does not place the declaration of %s at %s:%d:%d", target, u.Path, f.NameLine, f.NameCol)
-				}
-			}
-			for _, e := range f.Events {
-				if e.Target == target && e.Recv == "super" {
-					superSite = true // not asserted to be attributed: the model decides
-				}
-				if e.Target == target && e.Resolve {
-					sites++
-					if wildcardOnly {
-						wildcardSite = true
+			for ri, r := range subs {
+				if fullName(u) == reqs[ri].Class && f.Name == r.old {
+					if e := (edit{u.Path, f.NameLine, f.NameCol}); !seen[e] || owner[e] != ri {
+						return pbt.Fail("the model does not place the declaration of %s at %s:%d:%d", r.target, u.Path, f.NameLine, f.NameCol)
 					}
-					if !seen[edit{u.Path, e.Line, e.Col}] {
-						return pbt.Fail("the call of %s at %s:%d:%d (receiver kind %s) is not attributed to it by the model", target, u.Path, e.Line, e.Col, e.Recv)
+				}
+				for _, e := range f.Events {
+					if e.Target == r.target && e.Recv == "super" {
+						superSite = true // not asserted to be attributed: the model decides
+					}
+					if e.Target == r.target && e.Resolve {
+						sites++
+						if wildcardOnly && ri == mainAt {
+							wildcardSite = true
+						}
+						if ed := (edit{u.Path, e.Line, e.Col}); !seen[ed] || owner[ed] != ri {
+							return pbt.Fail("the call of %s at %s:%d:%d (receiver kind %s) is not attributed to it by the model", r.target, u.Path, e.Line, e.Col, e.Recv)
+						}
 					}
 				}
 			}
@@ -465,13 +603,14 @@ func check(c Case) pbt.Verdict {
 			}
 			return es[i].col > es[j].col // right to left within a line
 		})
-		oldLen := utf8.RuneCountInString(c.Old)
 		for _, e := range es {
+			r := subs[owner[e]]
+			oldLen := utf8.RuneCountInString(r.old)
 			l := []rune(lines[e.line-1])
-			if e.col+oldLen > len(l) || string(l[e.col:e.col+oldLen]) != c.Old {
-				return pbt.Fail("the model's position %s:%d:%d does not select %q in %q", file, e.line, e.col, c.Old, lines[e.line-1])
+			if e.col+oldLen > len(l) || string(l[e.col:e.col+oldLen]) != r.old {
+				return pbt.Fail("the model's position %s:%d:%d does not select %q in %q", file, e.line, e.col, r.old, lines[e.line-1])
 			}
-			lines[e.line-1] = string(l[:e.col]) + c.New + string(l[e.col+oldLen:])
+			lines[e.line-1] = string(l[:e.col]) + r.new + string(l[e.col+oldLen:])
 		}
 		expected[file] = strings.Join(lines, "\n")
 	}
@@ -503,7 +642,7 @@ func check(c Case) pbt.Verdict {
 		now := readTree(priorDir, orig)
 		for _, path := range sortedKeys(orig) {
 			if now[path] != priorFiles[path] {
-				return pbt.Fail("%s (%s -> %s) changed %s in the tree of the earlier request %s.%s -> %s\n%s", how, target, c.New, path, c.Prior.Class, c.Prior.Old, c.Prior.New, firstDiff("", priorFiles[path], now[path]))
+				return pbt.Fail("%s (%s) changed %s in the tree of the earlier request %s.%s -> %s\n%s", how, renames, path, c.Prior.Class, c.Prior.Old, c.Prior.New, firstDiff("", priorFiles[path], now[path]))
 			}
 		}
 	}
@@ -513,7 +652,7 @@ func check(c Case) pbt.Verdict {
 			return pbt.Fail("after %s: %s is gone: %v", how, path, err)
 		}
 		if string(got) != expected[path] {
-			return pbt.Fail("after %s (%s -> %s): %s differs from the original with exactly the %d allowed identifier(s) replaced\n%s", how, target, c.New, path, len(byFile[path]), firstDiff(orig[path], expected[path], string(got)))
+			return pbt.Fail("after %s (%s): %s differs from the original with exactly the %d allowed identifier(s) replaced\n%s", how, renames, path, len(byFile[path]), firstDiff(orig[path], expected[path], string(got)))
 		}
 	}
 	// re-analysis gives the original model with the method and those calls renamed
@@ -522,36 +661,104 @@ func check(c Case) pbt.Verdict {
 	if p != "" {
 		return pbt.Fail("re-analysis panicked: %s", p)
 	}
-	delta := utf8.RuneCountInString(c.New) - utf8.RuneCountInString(c.Old) // columns count characters
+	delta := subs[mainAt].delta
+	resized := false // some request changes the length of its name
+	for _, r := range subs {
+		if r.delta != 0 {
+			resized = true
+		}
+	}
 	shift := func(file string, line, col int) int {
 		n := 0
 		for _, e := range byFile[file] {
 			if e.line == line && e.col < col {
-				n += delta
+				n += subs[owner[e]].delta
 			}
 		}
 		return col + n
 	}
-	want := project(before, proj, c.Old, c.New, func(file string, f *core_domain.CodeFunction) {
-		if seen[edit{file, f.Position.StartLine, f.Position.StartLinePosition}] && f.Name == c.Old {
-			f.Name = c.New
+	want := project(before, proj, reqs, func(file string, f *core_domain.CodeFunction) {
+		if e := (edit{file, f.Position.StartLine, f.Position.StartLinePosition}); seen[e] && f.Name == subs[owner[e]].old {
+			f.Name = subs[owner[e]].new
 		}
 		f.Position.StartLinePosition = shift(file, f.Position.StartLine, f.Position.StartLinePosition)
 		for k := range f.FunctionCalls {
 			call := &f.FunctionCalls[k]
-			if seen[edit{file, call.Position.StartLine, call.Position.StartLinePosition}] && call.FunctionName == c.Old {
-				call.FunctionName = c.New
+			if e := (edit{file, call.Position.StartLine, call.Position.StartLinePosition}); seen[e] && call.FunctionName == subs[owner[e]].old {
+				call.FunctionName = subs[owner[e]].new
 			}
 			call.Position.StartLinePosition = shift(file, call.Position.StartLine, call.Position.StartLinePosition)
 		}
 	})
-	got := project(after, proj, c.Old, c.New, func(string, *core_domain.CodeFunction) {})
+	got := project(after, proj, reqs, func(string, *core_domain.CodeFunction) {})
 	if want != got {
-		return pbt.Fail("re-analysis after renaming %s -> %s is not the original model with that method and its calls renamed\n%s", target, c.New, firstDiff("", want, got))
+		return pbt.Fail("re-analysis after %s is not the original model with %s\n%s", renames, map[bool]string{true: "that method and its calls renamed", false: "those methods and their calls renamed"}[len(reqs) == 1], firstDiff("", want, got))
 	}
 	v := pbt.Verdict{}
 	total := len(edits)
-	v.NonTrivial = total >= 2 && (sameLine || mbLeft || delta != 0)
+	v.NonTrivial = total >= 2 && (sameLine || mbLeft || resized)
+	// several requests in one config: how their sites lie to each other
+	if len(reqs) > 1 {
+		v.Classes = append(v.Classes, fmt.Sprintf("config_with_%d_requests", len(reqs)))
+		shared, staleRight, earlierRight, otherClass, sameOld, absent, sameFile := false, false, false, false, false, false, false
+		perReq := map[int]int{}
+		files := map[string]map[int]bool{}
+		for _, e := range edits {
+			perReq[owner[e]]++
+			if files[e.file] == nil {
+				files[e.file] = map[int]bool{}
+			}
+			files[e.file][owner[e]] = true
+			for _, e2 := range edits {
+				a, b := owner[e], owner[e2]
+				if e.file != e2.file || e.line != e2.line || a == b || e.col >= e2.col {
+					continue
+				}
+				// e stands left of e2 on one line, and they belong to different requests
+				shared = true
+				if a < b && subs[a].delta != 0 {
+					staleRight = true
+				}
+				if a > b {
+					earlierRight = true
+				}
+			}
+		}
+		for _, rs := range files {
+			if len(rs) >= 2 {
+				sameFile = true
+			}
+		}
+		for ri, r := range subs {
+			if perReq[ri] == 0 {
+				absent = true
+			}
+			for _, r2 := range subs[:ri] {
+				if r.pkg != r2.pkg || r.cls != r2.cls {
+					otherClass = true
+					if r.old == r2.old {
+						sameOld = true
+					}
+				}
+			}
+		}
+		for _, x := range []struct {
+			on    bool
+			label string
+		}{
+			{sameFile, "sites_of_two_requests_in_one_file"}, {shared, "sites_of_two_requests_on_one_line"},
+			{staleRight, "site_of_a_later_request_right_of_a_resized_site_of_an_earlier_request"},
+			{earlierRight, "site_of_an_earlier_request_right_of_a_site_of_a_later_request"},
+			{otherClass, "requests_for_methods_of_different_classes"}, {!otherClass, "requests_for_methods_of_one_class"},
+			{sameOld, "requests_for_methods_of_one_name_in_different_classes"},
+			{absent, "request_without_any_site_in_the_project"},
+			{mainAt > 0, "main_request_not_on_the_first_line"}, {c.Sep == 1, "blank_line_between_requests"},
+		} {
+			if x.on {
+				v.Classes = append(v.Classes, x.label)
+			}
+		}
+	}
 	if sameLine {
 		v.Classes = append(v.Classes, "two_sites_on_one_line")
 	}
@@ -650,7 +857,7 @@ func check(c Case) pbt.Verdict {
 }
 
 // project renders the parts of a model that the statement's last sentence is about.
-func project(model []core_domain.CodeDataStruct, proj string, oldName, newName string, adjust func(file string, f *core_domain.CodeFunction)) string {
+func project(model []core_domain.CodeDataStruct, proj string, reqs []Request, adjust func(file string, f *core_domain.CodeFunction)) string {
 	var out []string
 	for _, ds := range model {
 		if ds.NodeName == "" {
@@ -666,8 +873,10 @@ func project(model []core_domain.CodeDataStruct, proj string, oldName, newName s
 			for _, call := range f.FunctionCalls {
 				// a call chained onto m() is recorded with node "m", one on `new K(m())` with node
 				// "newK(m())": the method's name inside a receiver label follows the rename, so old
-				// and new are the same label here
-				call.NodeName = replaceIdent(call.NodeName, oldName, newName)
+				// and new are the same label here (the new names are fresh: written back as the old ones)
+				for _, r := range reqs {
+					call.NodeName = replaceIdent(call.NodeName, r.New, r.Old)
+				}
 				s += fmt.Sprintf("\n    %s|%s|%s|%s @%d:%d", call.Package, call.NodeName, call.FunctionName, call.Type, call.Position.StartLine, call.Position.StartLinePosition)
 			}
 			fs = append(fs, s)
@@ -732,13 +941,13 @@ func firstDiff(orig, want, got string) string {
 func init() {
 	pbt.SetProperty("C05")
 	jgen.SetExcluded(pbt.Excluded)
-	pbt.Describe("rapid-generated conventional Java projects (jgen, 1-4 units with method bodies, multi-byte literals and comments, several invocations per line, the method's name also inside string literals and comments as decoys; a calling class of another package reaches the renamed method's class through a single-type import, through a wildcard import of its package only, or through both, among unrelated wildcard imports; subclasses call methods their project superclass declares as super.m(...) or unqualified, classes call static methods of others through `import static`, written next to the imports as a further occurrence of the name that is no call; anonymous classes as arguments; loop and branch bodies without braces; method, variable and class names drawn from the whole identifier alphabet: besides ASCII letters and digits also `_`, `$` (not in class names) and letters outside ASCII (run4$impl, _calc7, m12größe, 値load3, class Order5_v, Item7É), names of 41-300 and rarely 4100-5200 characters, packages with digits and underscores (com.acme2.v1_0); physical lines of any length: a member or a whole unit on one line (sites on the first and on the last line of a file with or without final line end), block comments and literals of 500-6000 and rarely 60000-70000 bytes on the lines of declarations, parameter lists of 20-120 parameters; some files with CRLF line ends) and a rename request for a class method whose name is unique in its class, preferring methods with call sites, and among those methods called from another file. One subject in four (and every subject of a project without such a method) is declared by a unit written by hand: in a package of the project, a fresh package or the default package; named plainly, with one character (q, $, é, 値), with a contextual keyword (open, with, to, record, module, ...), with 41-5200 characters or with `_` `$` and letters outside ASCII; its name separated from the return type by blanks, a tab, a comment holding the name, a comment of 4200-70000 bytes or a line end (the name then begins its line, also at column 0) and from the parenthesis by nothing, blanks, a comment or a line end; static or not, generic or not, annotated (the name inside the annotation's literal); declared before or after its users; called in a field initializer, an initializer block, its own body and a user method with 0-4 lines of 1-3 statements (rarely 12-68 sites in one file) of the forms m(1), this.m(null), m (2) / m/* m( */(2) / m<line end>(2), C.m(4), m(m(5)), a literal holding the name left and right of the site, the method references C::m and this::m, a call behind a comment of 4200-70000 bytes, new C().m(7), a site behind a multi-byte literal, a lambda body, this.<line end>m(6); up to three further methods of the class whose names resemble the subject's (mX, m_, m2, xm, mm, m without its last or first character, M.., the upper-case form) declared and called on the lines of genuine sites; optionally a second top-level class in the same file that calls the method on a parameter (its node of the model carries neither package nor imports); optionally a second hand-written file that calls the method on a parameter, a field and a local variable (also zp<line end>.m(5), the method reference zp::m, C.m(4)), from the same or another package. One case in five adds a class that resembles the subject's class and declares and calls a method of the subject's name: the same simple name in another package (pkg.alt, pkgx, xpkg, alt.pkg), or the subject's class name extended (CX, C2, C_, CImpl) in its package. New names of length 1, the same length (in characters), 20-40 characters, or 1-13 characters, made of letters with up to three characters replaced by `_`, `$`, a digit or a letter outside ASCII (Latin-1, Greek, Cyrillic, CJK); one in four resembles the old name (an extension, a prefix, a suffix, a case variant of it) or is a contextual keyword. The request stands in the config file with or without final line end, alone or among blank lines; the model is handed over as analysed or in reverse order; one case in six runs after another request (for the same or another method) has been carried out in the same process on another copy of the project. Oracle: the allowed edits are the declaration identifier and the callee identifier of every call the pre-rename model attributes to the method (positions taken from the model, cross-checked against the printer's table: the declaration and every generated call site with an implicit / field / parameter / local receiver of that class must be among them); all edits are applied to the original text at once (in characters) and every file of the project must byte-equal the result; the files of the tree renamed earlier must not change; then the rewritten tree is re-analysed and must give the original model with the method and those calls renamed and start columns shifted. Non-trivial = at least 2 edited tokens and (two on one line, or multi-byte text left of a token, or a length change); distinct = hash of the case.",
+	pbt.Describe("rapid-generated conventional Java projects (jgen, 1-4 units with method bodies, multi-byte literals and comments, several invocations per line, the method's name also inside string literals and comments as decoys; a calling class of another package reaches the renamed method's class through a single-type import, through a wildcard import of its package only, or through both, among unrelated wildcard imports; subclasses call methods their project superclass declares as super.m(...) or unqualified, classes call static methods of others through `import static`, written next to the imports as a further occurrence of the name that is no call; anonymous classes as arguments; loop and branch bodies without braces; method, variable and class names drawn from the whole identifier alphabet: besides ASCII letters and digits also `_`, `$` (not in class names) and letters outside ASCII (run4$impl, _calc7, m12größe, 値load3, class Order5_v, Item7É), names of 41-300 and rarely 4100-5200 characters, packages with digits and underscores (com.acme2.v1_0); physical lines of any length: a member or a whole unit on one line (sites on the first and on the last line of a file with or without final line end), block comments and literals of 500-6000 and rarely 60000-70000 bytes on the lines of declarations, parameter lists of 20-120 parameters; some files with CRLF line ends) and a rename request for a class method whose name is unique in its class, preferring methods with call sites, and among those methods called from another file. One subject in four (and every subject of a project without such a method) is declared by a unit written by hand: in a package of the project, a fresh package or the default package; named plainly, with one character (q, $, é, 値), with a contextual keyword (open, with, to, record, module, ...), with 41-5200 characters or with `_` `$` and letters outside ASCII; its name separated from the return type by blanks, a tab, a comment holding the name, a comment of 4200-70000 bytes or a line end (the name then begins its line, also at column 0) and from the parenthesis by nothing, blanks, a comment or a line end; static or not, generic or not, annotated (the name inside the annotation's literal); declared before or after its users; called in a field initializer, an initializer block, its own body and a user method with 0-4 lines of 1-3 statements (rarely 12-68 sites in one file) of the forms m(1), this.m(null), m (2) / m/* m( */(2) / m<line end>(2), C.m(4), m(m(5)), a literal holding the name left and right of the site, the method references C::m and this::m, a call behind a comment of 4200-70000 bytes, new C().m(7), a site behind a multi-byte literal, a lambda body, this.<line end>m(6); up to three further methods of the class whose names resemble the subject's (mX, m_, m2, xm, mm, m without its last or first character, M.., the upper-case form) declared and called on the lines of genuine sites; optionally a second top-level class in the same file that calls the method on a parameter (its node of the model carries neither package nor imports); optionally a second hand-written file that calls the method on a parameter, a field and a local variable (also zp<line end>.m(5), the method reference zp::m, C.m(4)), from the same or another package. One case in five adds a class that resembles the subject's class and declares and calls a method of the subject's name: the same simple name in another package (pkg.alt, pkgx, xpkg, alt.pkg), or the subject's class name extended (CX, C2, C_, CImpl) in its package. New names of length 1, the same length (in characters), 20-40 characters, or 1-13 characters, made of letters with up to three characters replaced by `_`, `$`, a digit or a letter outside ASCII (Latin-1, Greek, Cyrillic, CJK); one in four resembles the old name (an extension, a prefix, a suffix, a case variant of it) or is a contextual keyword. One case in two writes one or two further requests into the same config, each for another method and with a new name drawn like the first: a method of the subject's class or of another class of the project (three times in four one that has a site on a line which also holds a site of a method already requested, so that the sites of different requests stand side by side on one line, in either order), a method of the subject's name declared by the class that resembles the subject's class, a method of the hand-written unit (one named like the subject, whose calls stand on the lines of the subject's sites, or the user method), or one time in ten (and whenever no other method is left) a method nobody declares or calls (of the subject's class, or of a class the project does not have: a request without any site); the requests stand in any order (the first one anywhere among them), one per line, one time in four with a blank line between them. The config file comes with or without final line end, its requests alone or among blank lines; the model is handed over as analysed or in reverse order; one case in six runs after another request (for the same or another method) has been carried out in the same process on another copy of the project. Oracle: the allowed edits are the declaration identifier and the callee identifier of every call the pre-rename model attributes to the method (positions taken from the model, cross-checked against the printer's table: the declaration and every generated call site with an implicit / field / parameter / local receiver of that class must be among them); all edits of all requests of the config are applied to the original text at once (in characters, every token getting the new name of its own request) and every file of the project must byte-equal the result; the files of the tree renamed earlier must not change; then the rewritten tree is re-analysed and must give the original model with every requested method and its calls renamed and start columns shifted (by the length changes of all edits left of them on the line). Non-trivial = at least 2 edited tokens and (two on one line, or multi-byte text left of a token, or a length change of some request); distinct = hash of the case.",
 		"rename subjects are class methods (interface method positions start at the first token of the declaration, DESIGN.md appendix B) whose name is not overloaded in the class; top-level classes only (nested types are outside the generated projects, as for C01)",
 		"the new name is fresh in the project (it is compared with every identifier written in the project's files and lengthened when it occurs) and is not a keyword; contextual keywords of the shipped grammar (open, with, to, record, module, exports, opens, uses, provides, requires, transitive, sealed, permits) are ordinary method names",
 		"lengths and columns are counted in characters (the model's columns are the lexer's), so `same length` and the shift of columns right of an edit refer to characters, not bytes",
 		"a plain class name denotes one class: a second class of the subject's simple name (in another package) is added only when every other file that calls the subject imports its class by a single-type import (the model resolves a plain name that has no such import by its simple name alone, which is C02's subject)",
 		"super.m(...) calls, unqualified calls of inherited or statically imported methods, this.m(), C.m(), new C().m(), method references and calls outside every method are not required to be attributed to the method (the statement's edits are the calls the model attributes); when the model does attribute them they must be renamed like any other call, otherwise they must stay as they are",
-		"one request per config file, written as the tool's own examples write it (`old -> new`, one blank on either side, LF line ends in the config); a config with several requests, CR LF line ends or other text is outside (the statement speaks of one request and does not say how the lines of a config combine)",
+		"a config holds one to three requests, one per line, each written as the tool's own examples write it (`old -> new`, one blank on either side, LF line ends in the config); CR LF line ends or other text in the config are outside. The requests of one config name different methods (different class or different old name), their new names are fresh and differ from each other, so no request renames what another one produces and the expected result does not depend on their order: every requested method's declaration and attributed calls renamed, nothing else changed. The same request twice, two requests for one method, and chains (a -> b, b -> c) are outside: the statement does not say how such lines combine. Should the model attribute one token to two requests, the case is skipped (counter token_claimed_by_two_requests)",
 		"files are UTF-8 without byte order mark (javac rejects a mark); line ends are LF or CR LF",
 		"an earlier request is carried out through the API on a separate copy of the project; between the two requests the analysis passes are reset (their state is C07's subject), the rename package is not",
 		"one case in fifteen goes through the sub-process `coca refactor` with the model serialised to deps.json; the options are spelled -R f -d f, --rename f --dependence f, --rename=f --dependence=f, -d f -R f, -Rf -df, or with paths relative to the working directory")
